@@ -208,7 +208,8 @@ def _run(trace, log, stats, cur):
                                                            f'#{op[1] % len(pool)}')
         elif kind == 'constrain':
             # "constraining choices on a copy": LINKED between two not yet constrained selection choices with equal option
-            # counts (or two discrete design-variable nodes with equal option counts)
+            # counts (or two discrete design-variable nodes with equal option counts), or PERMUTATION / UNORDERED /
+            # UNORDERED_NOREPL over 2-3 not yet constrained selection choices
             from adsg_core.graph.adsg_basic import ChoiceConstraintType
             from adsg_core.graph.adsg_nodes import DesignVariableNode
             cp = g.copy()
@@ -225,12 +226,31 @@ def _run(trace, log, stats, cur):
             for n in dvs:
                 by_d.setdefault(len(n.options), []).append(n)
             pairs += [v[:2] for k_, v in sorted(by_d.items()) if len(v) >= 2]
-            if not pairs:
+            ctype = [ChoiceConstraintType.LINKED, ChoiceConstraintType.LINKED, ChoiceConstraintType.PERMUTATION,
+                     ChoiceConstraintType.UNORDERED, ChoiceConstraintType.UNORDERED_NOREPL][op[3] % 5]
+            if ctype is ChoiceConstraintType.LINKED:
+                if not pairs:
+                    continue
+                group = pairs[op[2] % len(pairs)]
+                remove = False
+            else:
+                # index constraints over 2-3 free selection choices with any option counts - possibly unsatisfiable
+                # (three two-option choices cannot be pairwise different): the choices then lose options or all of them
+                if len(sels) < 2:
+                    continue
+                k = min(len(sels), 2 + op[2] % 2)
+                at = (op[2] // 4) % (len(sels) - k + 1)
+                group = sels[at:at + k]
+                remove = (op[2] // 2) % 2 == 0
+            try:
+                res = cp.constrain_choices(ctype, group, remove_infeasible_choices=remove)
+            except (ValueError, RuntimeError) as e:
+                stats['probe:constraint_rejected:' + type(e).__name__] += 1
                 continue
-            pair = pairs[op[2] % len(pairs)]
-            res = cp.constrain_choices(ChoiceConstraintType.LINKED, pair, remove_infeasible_choices=False)
-            new = (res, f'copy of #{op[1] % len(pool)} with LINKED({gen_dsg.label(pair[0])}, {gen_dsg.label(pair[1])})')
+            new = (res, f'copy of #{op[1] % len(pool)} with {ctype.name}({", ".join(gen_dsg.label(n) for n in group)}; '
+                        f'remove_infeasible_choices={remove})')
             stats['probe:constraint_added'] += 1
+            stats['probe:constraint_added:' + ctype.name] += 1
         elif kind == 'confirmed':
             new = (g.get_confirmed_graph(), f'get_confirmed_graph of #{op[1] % len(pool)}')
         elif kind == 'set_values':
